@@ -298,6 +298,9 @@ func runCrash(p *Plan, tree *refTree, res *simcore.Result) {
 			v := rb.run(model, img, mem)
 			fp = fp.U64(c).U64(uint64(d)).U64(rb.headNum)
 			if v != nil {
+				if traceOn {
+					dumpAround(h, c)
+				}
 				modeS := "process crash"
 				if d > 0 {
 					modeS = fmt.Sprintf("power loss (%d unsynced key-value units dropped)", lost)
@@ -557,4 +560,42 @@ func (rb *rebooter) noLossBound(db ethdb.Database) (int64, string) {
 		}
 	}
 	return -1, "no state of the marker's chain on the image"
+}
+
+// dumpAround prints the recorded units / events near a cut (debugging aid).
+func dumpAround(h *history, c uint64) {
+	lo := uint64(0)
+	if c > 8 {
+		lo = c - 8
+	}
+	for i := range h.kvlog {
+		op := &h.kvlog[i]
+		if op.Seq < lo || op.Seq > c+3 {
+			continue
+		}
+		mark := " "
+		if op.Seq > c {
+			mark = ">"
+		}
+		fmt.Printf("   %s kv  seq %d kind %d key %x (%d sub-ops)\n", mark, op.Seq, op.Kind, trunc(op.Key), len(op.Batch))
+		for j := range op.Batch {
+			if j < 14 {
+				fmt.Printf("        %d %x = %d bytes\n", op.Batch[j].Kind, trunc(op.Batch[j].Key), len(op.Batch[j].Val))
+			}
+		}
+	}
+	for i := range h.events {
+		e := &h.events[i]
+		if e.Seq < lo || e.Seq > c+3 {
+			continue
+		}
+		fmt.Printf("     file seq %d %s %s off=%d len=%d\n", e.Seq, e.Kind, e.Path[len(h.root):], e.Off, len(e.Data))
+	}
+}
+
+func trunc(b []byte) []byte {
+	if len(b) > 12 {
+		return b[:12]
+	}
+	return b
 }
